@@ -132,6 +132,9 @@ func init() {
 		"strings.TrimRight":  inTrimRight,
 		"strings.Contains":   inContains,
 		"strings.ReplaceAll": inReplaceAll,
+		"strings.Replace": func(ip *Interp, fn *ssa.Function, a []Value) Value {
+			return replaceN(ip, a[0].(*StrV), a[1].(*StrV), a[2].(*StrV), int(ip.concInt(a[3])))
+		},
 		"strings.NewReader": func(ip *Interp, fn *ssa.Function, a []Value) Value {
 			bs := ip.strBytes(a[0].(*StrV))
 			d := make([]Value, len(bs))
@@ -843,18 +846,24 @@ func inSplit(ip *Interp, fn *ssa.Function, a []Value) Value {
 }
 
 func inReplaceAll(ip *Interp, fn *ssa.Function, a []Value) Value {
-	s, old, nw := a[0].(*StrV), a[1].(*StrV), a[2].(*StrV)
+	return replaceN(ip, a[0].(*StrV), a[1].(*StrV), a[2].(*StrV), -1)
+}
+
+// replaceN is strings.Replace: the first n non-overlapping matches are replaced (n < 0: all).
+func replaceN(ip *Interp, s, old, nw *StrV, n int) Value {
 	if s.IsConc() && old.IsConc() && nw.IsConc() {
-		return mkStr(strings.ReplaceAll(s.S, old.S, nw.S))
+		return mkStr(strings.Replace(s.S, old.S, nw.S, n))
 	}
 	if old.Len() == 0 {
-		unsupported("strings.ReplaceAll with empty pattern on symbolic string")
+		unsupported("strings.Replace with empty pattern on symbolic string")
 	}
 	sb, ob, nb := ip.strBytes(s), ip.strBytes(old), ip.strBytes(nw)
 	var out []*Term
 	i := 0
+	done := 0
 	for i < len(sb) {
-		if i+len(ob) <= len(sb) && ip.p.Branch(ip.matchAt(sb, i, ob)) {
+		if (n < 0 || done < n) && i+len(ob) <= len(sb) && ip.p.Branch(ip.matchAt(sb, i, ob)) {
+			done++
 			out = append(out, nb...)
 			i += len(ob)
 		} else {
